@@ -671,6 +671,7 @@ func (ls *LanceroSource) launchLanceroReader() {
 				}
 				if len(b) < 3*dev.frameSize { // read is too small
 					fmt.Println("lancero read too small")
+					carriedDataDrop = dataDropDetected // nothing was consumed: a loss noticed earlier is still unreported
 					continue
 				}
 				q, p, ncols, err := lancero.FindFrameBits(b, lanceroFBOffset)
